@@ -15,6 +15,19 @@ CHECKS = {
     ),
 }
 
+CHECKS["C06"] = dict(
+    technique="TLA+ state machine KeyLifecycle (epochs, 3-round redistribution) model-checked by TLC + TLC trace validation of real protocol runs on a toy group",
+    text="KeyLifecycle.tla models a key epoch (span programme, dealing column = discrete logs of the verification vector, shares) and the three rounds of "
+         "redistribution as the implementation's messages reveal them; TLC explores every small history (KeyLifecycleMC) and validates seeded histories "
+         "(deal, refresh, recover, redistribute with/without anchor, unqualified driver, reconstruction from every subset, mixed epochs) recorded from the real "
+         "session/HJKY/redistribute participants running over CBOR bytes on a toy prime-order group: every logged zero share, sub-share, blinded contribution, "
+         "output share, verification vector and public key is recomputed mod q and the invariants (public key constant, shares verify, zero sharings are zero, "
+         "blinded contributions sum to the secret, exactly the qualified sets reconstruct) are checked after every round.",
+    note="Trusted: TLC, the spec, the toy group (device X of DESIGN.md), harness-computed span certificates (verified by TLC). Production curves execute the same generic code; "
+         "curve-specific code is not reached here. Post-epoch signing is C01.",
+    design_ref="DESIGN.md section 2, C06",
+)
+
 NOT_APPLICABLE = {
     "C13": "byte-level encode/decode fidelity of 256-381-bit curve elements: no state/transition structure and operands TLC cannot represent; a TLA+ specification would decide nothing (DESIGN.md section 3)",
 }
